@@ -594,6 +594,14 @@ fn block_shapes() -> Vec<PrintShape> {
         ("for-closed-in-included", vec![("root", vec!["arr = array a b c", "t = set \"\"", "for x in ${arr}", ">close"]), ("close", vec!["t = set \"${t}${x}\"", "end", "release ${arr}", "d = set after"])]),
         ("fn-closed-in-included", vec![("root", vec!["fn f", "r = set ${1}!", ">close"]), ("close", vec!["return ${r}", "end", "o = f v", "d = set after"])]),
         ("nested-closed-two-levels-down", vec![("root", vec!["i = set 0", "while less_than ${i} 2", "i = calc ${i} + 1", "if true", ">mid"]), ("mid", vec!["k = set ${i}", ">close"]), ("close", vec!["end", "end", "d = set after"])]),
+        // a file that defines a function, reached twice: the pasted script defines it twice (the second
+        // definition is refused and its body runs in line), and so does the include structure
+        ("fn-in-file-included-twice", vec![("root", vec!["cnt = set 0", ">lib", ">lib", "o = f", "d = set after"]), ("lib", vec!["fn f", "cnt = calc ${cnt} + 1", "return ${cnt}", "end"])]),
+        ("fn-in-file-included-twice-one-line", vec![("root", vec!["cnt = set 0", ">lib lib", "o = f", "d = set after"]), ("lib", vec!["fn f", "cnt = calc ${cnt} + 1", "return ${cnt}", "end"])]),
+        ("fn-in-diamond", vec![("root", vec!["cnt = set 0", ">lib", ">sub", "o = f", "d = set after"]), ("sub", vec!["s = set 1", ">lib"]), ("lib", vec!["fn f", "cnt = calc ${cnt} + 1", "return ${cnt}", "end"])]),
+        ("scoped-fn-in-file-included-twice", vec![("root", vec!["cnt = set 0", ">lib", ">lib", "o = g x", "d = set after"]), ("lib", vec!["fn <scope> g", "t = set ${1}${1}", "return ${t}", "end", "cnt = calc ${cnt} + 1"])]),
+        ("alias-in-file-included-twice", vec![("root", vec!["cnt = set 0", ">lib", ">lib", "o = hello", "d = set after"]), ("lib", vec!["r${cnt} = alias hello set hi", "cnt = calc ${cnt} + 1"])]),
+        ("label-in-file-included-twice", vec![("root", vec!["cnt = set 0", ">lib", ">lib", "d = set after"]), ("lib", vec!["cnt = calc ${cnt} + 1", "if less_than ${cnt} 5", "goto :again", "end", ":again x = set ${cnt}"])]),
         ("else-in-included", vec![("root", vec!["if false", "b = set never", ">mid", "c = set other", "end", "d = set after"]), ("mid", vec!["else"])]),
     ]
 }
@@ -845,7 +853,7 @@ pub fn crash_sig(_case: &Value, kind: &str) -> String {
     kind.to_string()
 }
 
-pub const RULE: &str = "include structures: four files r.ds, d1/a.ds, d1/d2/b.ds, c.ds; every assignment of an include directive (none / one file / two files / the same file twice, listed in one directive, at the first, middle or last line) to each file such that a file only includes files later in the order (two orders: descending into and climbing out of the nested directories), unreachable files normalised away, x path style {./relative, plain relative, absolute}. Faults (on every n-th structure): each include edge pointing to a missing file; a malformed line at every (reachable file, line); a trigger_error at every (reachable file, line); two handled errors in different files (the later one is the last error: its line and its file); pairs of faults (a missing edge or a malformed line in an included file together with a malformed last line of the root file: the one that comes first in the pasted text must be reported). Oracle: parse_file(root) minus directive instructions equals parse_text of the recursively pasted text; every instruction carries the file it came from (compared as canonical paths) and its line in that file; running the file and the pasted text gives the same emit trace and variables; a missing file fails the parse with ErrorReadingFile naming that file; a malformed line fails with its kind, its own line and its own file; get_last_error_line/_source name the included file and line. Scale cases: a chain of 12/40 (thorough 150) files each including the next across two directories, a chain through files whose names differ only in letter case, one directive listing 12/100 (thorough 1000) files, an included file of 5000 (thorough 200000) lines: instruction order, file and line of every instruction. Parse-time output: 8 include shapes with !print lines (a file included once, twice on two lines, twice on one line, three times, a diamond, a nested file twice, prints only below, another file between) x relative / absolute paths, run in a child process against the pasted text run in a child process: same exit status, same standard output. Blocks across files: 11 shapes (if / while / for / fn / nested blocks opened in one file and closed in another, the directive last in its file or not, else in an included file) x relative / absolute paths: final variables of the include structure equal those of the pasted text";
+pub const RULE: &str = "include structures: four files r.ds, d1/a.ds, d1/d2/b.ds, c.ds; every assignment of an include directive (none / one file / two files / the same file twice, listed in one directive, at the first, middle or last line) to each file such that a file only includes files later in the order (two orders: descending into and climbing out of the nested directories), unreachable files normalised away, x path style {./relative, plain relative, absolute}. Faults (on every n-th structure): each include edge pointing to a missing file; a malformed line at every (reachable file, line); a trigger_error at every (reachable file, line); two handled errors in different files (the later one is the last error: its line and its file); pairs of faults (a missing edge or a malformed line in an included file together with a malformed last line of the root file: the one that comes first in the pasted text must be reported). Oracle: parse_file(root) minus directive instructions equals parse_text of the recursively pasted text; every instruction carries the file it came from (compared as canonical paths) and its line in that file; running the file and the pasted text gives the same emit trace and variables; a missing file fails the parse with ErrorReadingFile naming that file; a malformed line fails with its kind, its own line and its own file; get_last_error_line/_source name the included file and line. Scale cases: a chain of 12/40 (thorough 150) files each including the next across two directories, a chain through files whose names differ only in letter case, one directive listing 12/100 (thorough 1000) files, an included file of 5000 (thorough 200000) lines: instruction order, file and line of every instruction. Parse-time output: 8 include shapes with !print lines (a file included once, twice on two lines, twice on one line, three times, a diamond, a nested file twice, prints only below, another file between) x relative / absolute paths, run in a child process against the pasted text run in a child process: same exit status, same standard output. Blocks across files: 11 shapes (if / while / for / fn / nested blocks opened in one file and closed in another, the directive last in its file or not, else in an included file) x relative / absolute paths: final variables of the include structure equal those of the pasted text. Six more shapes: a file defining a function / a scoped function / an alias / a label included twice (two lines, one line, a diamond)";
 pub const ASSUMPTIONS: &[&str] = &["cyclic includes are outside the property (C07 probes them)", "the scratch directory is on a local file system without symlinks"];
 pub const EXHAUSTIVE: bool = true;
 pub const WALL_CAP_S: (u64, u64) = (55, 1500);
